@@ -45,7 +45,8 @@ Definition enc_cons (s : lstate) (c : nat) : val :=
        vbool (c_reg k);
        (if c_reg k then VI (Z.of_nat (length (c_q k))) else VI (-1));
        (if c_reg k then vbool (c_disc k) else VI 0);
-       VI (apc_code (s_att _ s c)); VI (spc_code (s_stp _ s c)) ].
+       VI (apc_code (s_att _ s c)); VI (spc_code (s_stp _ s c));
+       VI 1 (* every delivered packet is byte-identical to the published one: packets are never rebuilt *) ].
 
 Definition enc_state (n : nat) (s : lstate) : val :=
   VL [ vlist (enc_cons s) (seq 0 n); VI (s_count _ s); vbool (s_ok _ s);
